@@ -34,7 +34,7 @@ RULE = ('one run = one seeded history (a few commits, a victim transaction, '
         'the victim reached the storage (>= 1 store or a fired fault); '
         'distinct = (kind, variant, outcome, hash of history)')
 BUDGET = {'quick': {'runs': 480, 'wall': 300, 'chunk': 5},
-          'thorough': {'runs': 24000, 'wall': 3000, 'chunk': 10}}
+          'thorough': {'runs': 24000, 'wall': 1800, 'chunk': 10}}
 ASSUMPTIONS = [
     'after a persistent failure window (the cleanup itself could not write) '
     'only state equality of the live storage and after reopen is required, '
